@@ -8,3 +8,4 @@ import contracts.memo  # noqa  (re-entrancy guard of EvalCtx.evaluate)
 INFO = {'not_decided': ['termination (no decreases measure across memoised mutual recursion evaluate -> resolve -> _attrs -> bases -> evaluate)',
                         'whole-API totality: only the functions under contract are covered; the recursion-limit clause'],
         'stated_lemmas': [], 'trusted': ['ast.parse produces trees that conform to Python.asdl as documented in the node classes\' signatures']}
+import props._all  # noqa
